@@ -1023,6 +1023,11 @@ def run(chk):
         c17lex.shell_part(chk)
     except ImportError:
         chk.notes["lexer_part"] = "props/c17lex.py not present: lexer and shell-quoting parts not run"
+    try:
+        import props.ninjaparse as ninjaparse       # bytes -> model parser -> model loader vs the real ManifestLoader (no recorded AST in between)
+        ninjaparse.load_part(chk)
+    except ImportError:
+        chk.notes["parser_part"] = "props/ninjaparse.py not present: end-to-end bytes -> model parse -> model load not run"
     chk.assumptions = ["the parser (lib/Ninja/Parser.cpp) is not modelled: the model's input is the AST recorded from the real parser on every case",
                        "Manifest::normalize_path and the llvm path helpers are compared with the model on generated paths, not proved",
                        "the working directory is an absolute POSIX path",
